@@ -54,6 +54,11 @@ func TestVerif_C10(t *testing.T) {
 		c.Assume("credit below inflowMinRefresh (4096) that the implementation deliberately batches in inflow.unsent counts as returned (it is sent with the next refresh); a one-byte leak still breaks the white-box equation")
 		c.Assume("DATA beyond the advertised windows is C11's domain and is not sent in C10 cases")
 		c.Assume("interleavings are explored at event granularity (L2)")
+		c.Rule("states = explored event histories (stateless search), transitions = events applied to the real endpoint and checked at quiescence, traces = histories executed to their end")
+		c08Determinism(c, func(w *vx.W, t testing.TB) ([]string, string) {
+			res, herr := c10srvRunCase(w, t, c08srvCase{Cfg: c08srvCfg{Sched: "9218", StrWin: 8}, Evs: []string{"H(-1)", "H(4)", "D(1,4,3,0)", "R(1,100)", "D(3,4,0,1)", "C(1)", "D(1,1,0,0)", "DONE(3)", "RST(1)"}}, c10sMode{id: "C10", leak: true})
+			return res.trace, herr
+		})
 		c10srvRunParts(c, c10sMode{id: "C10", leak: true}, c10srvParts(c))
 		c10cliRunParts(c)
 	})
